@@ -132,9 +132,82 @@ def c13_4(ctx):
             ctx.undecided("every-input-compared", ctx.where(f, e.node), "the comparison runs in a loop over `%s`; this rule reads loops over the inputs themselves" % t[:80])
 
 
+# ------------------------------------------------------------------ C13.5
+def c13_5(ctx):
+    """conservation clauses phrased over the functions' inputs"""
+    # (a) quotient and remainder of the split are taken by the SAME divisor, the number of shares
+    f = ctx.func(TU, "split_with_remainder")
+    total, count = f.params()[:2]
+    w = sym.walk(ctx, f, int_names=INTS)
+    terms = [e.value for e in w.effects if e.kind == "yield" and e.value is not None]
+    for e in w.effects:
+        for l in e.loops:
+            if l.iter is not None:
+                terms.append(l.iter if isinstance(l.iter, ast.AST) else w.sub(l.iter))
+    divs = []
+    for t in terms:
+        for n in ast.walk(t):
+            if isinstance(n, ast.BinOp) and isinstance(n.op, (ast.Mod, ast.FloorDiv)) and any(isinstance(x, ast.Name) and x.id == total for x in ast.walk(n.left)):
+                divs.append((n, norm(n.right)))
+            elif isinstance(n, ast.Call) and norm(n.func) == "divmod" and len(n.args) == 2 and any(isinstance(x, ast.Name) and x.id == total for x in ast.walk(n.args[0])):
+                divs.append((n, norm(n.args[1])))
+    if not divs:
+        ctx.undecided("split-one-divisor", ctx.where(f), "split_with_remainder: no quotient / remainder of the total found in what it yields")
+    for n, d in divs:
+        ctx.check(d == count, "split-one-divisor", ctx.where(f), "split_with_remainder computes `%s`: quotient and remainder must both be taken by the number of shares `%s`, or the shares do not add up to the total" % (norm(n)[:80], count),
+                  sample={"term": norm(n)[:60], "divisor": d})
+    # (b) the fee is inputs minus outputs as it is: no clamping, no rounding
+    g = ctx.func(TX, "Tx.fee")
+    wg = sym.walk(ctx, g)
+    for e in [e for e in wg.exits if e.kind == "return" and e.value is not None]:
+        v = wg.sub(e.value)
+        t = norm(v)
+        if isinstance(v, ast.BinOp) and isinstance(v.op, ast.Sub) and "total_in" in norm(v.left) and "total_out" in norm(v.right):
+            ctx.ok("fee-is-the-difference", sample={"fee": t[:60]})
+        elif "total_in" in t and "total_out" in t and isinstance(v, ast.Call) and norm(v.func) in ("max", "min", "abs", "int", "round"):
+            ctx.bad("fee-is-the-difference", ctx.where(g, e.node), "Tx.fee returns `%s`: the difference inputs - outputs is passed through %s, so an overspending transaction no longer shows a negative fee" % (t[:80], norm(v.func)))
+        else:
+            ctx.undecided("fee-is-the-difference", ctx.where(g, e.node), "Tx.fee returns `%s`; this rule reads `total_in() - total_out()`" % t[:80])
+    # (c) spent outputs are `missing` whenever their count is not the number of inputs (a LONGER list would be summed by total_in)
+    m = ctx.func(TX, "Tx.missing_unspents")
+    wm = sym.walk(ctx, m, int_names=INTS)
+    truth = sym.truth_formula(wm)
+    atoms = sorted(a for a in (set(gi.f_opaques(truth)) if truth not in (True, False) else set()) | sym.all_atoms(wm) if isinstance(a, str) and "len(self.unspents)" in a and "len(self.txs_in)" in a)
+    if atoms:
+        a = atoms[0]
+        differ = ("not", ("op", a)) if (" == " in a) else ("op", a)
+        cb = [o for o in sym.all_atoms(wm) if "is_coinbase" in o]
+        assume = gi.f_and(differ, *[("not", ("op", o)) for o in cb])
+        ctx.check(sym.entails(assume, truth), "count-mismatch-is-missing", ctx.where(m), "Tx.missing_unspents does not answer True whenever the number of recorded spent outputs differs from the number of inputs (test `%s`)" % a[:80], sample={"test": a[:80]})
+    else:
+        longer = any("len(self.unspents)" in o for o in sym.all_atoms(wm))
+        if longer:
+            ctx.undecided("count-mismatch-is-missing", ctx.where(m), "Tx.missing_unspents looks at len(self.unspents) in a form this rule does not read")
+        else:
+            ctx.bad("count-mismatch-is-missing", ctx.where(m), "Tx.missing_unspents never compares the number of recorded spent outputs with the number of inputs: a list with MORE entries than inputs passes, and total_in() / fee() then sum outputs that no input spends")
+    # (d) wrappers hand the fee on as given: 0 is a fee (`fee or default` replaces it)
+    c = ctx.func(TU, "create_signed_tx")
+    wc = sym.walk(ctx, c)
+    calls = sym.calls_matching(wc, lambda t: t == "create_tx" or t.endswith(".create_tx"))
+    if not calls:
+        ctx.undecided("fee-forwarded", ctx.where(c), "create_signed_tx does not call create_tx")
+    for e in calls:
+        fv = next((k.value for k in e.call.keywords if k.arg == "fee"), e.call.args[3] if len(e.call.args) > 3 else None)
+        if fv is None:
+            ctx.undecided("fee-forwarded", ctx.where(c, e.node), "create_signed_tx calls create_tx without a fee argument")
+        elif isinstance(fv, ast.Name) and fv.id == "fee":
+            ctx.ok("fee-forwarded", sample={"fee_argument": norm(fv)})
+        elif isinstance(fv, (ast.BoolOp, ast.IfExp)) and any(isinstance(x, ast.Name) and x.id == "fee" for x in ast.walk(fv)) and not any("is None" in norm(x) for x in ast.walk(fv) if isinstance(x, ast.Compare)):
+            ctx.bad("fee-forwarded", ctx.where(c, e.node), "create_signed_tx hands `%s` to create_tx: a requested fee of 0 is falsy and is replaced, so outputs + requested fee no longer equal the inputs" % norm(fv)[:60])
+        else:
+            ctx.undecided("fee-forwarded", ctx.where(c, e.node), "create_signed_tx hands `%s` to create_tx as the fee" % norm(fv)[:60])
+
+
 OBLIGATIONS = [
     Ob("C13.1", "insufficiency guards as intervals, dominating the writes of split amounts", c13_1, floor=2, engines="SYM", breaks_if="1 .. zero_count-1 satoshi left for several unspecified outputs"),
     Ob("C13.2", "fee / total / split definitions; divmod identity; exact decimal conversions", c13_2, floor=9, engines="SYM,CE", breaks_if="amounts >= 10^15 satoshi in the decimal conversions"),
     Ob("C13.3", "inputs and recorded spent outputs come from one list, unreordered", c13_3, floor=3, engines="SYM"),
     Ob("C13.4", "validate_unspents compares amount and script of every non-coinbase input", c13_4, floor=2, engines="SYM", breaks_if="two inputs spending the same source transaction, discrepancy on the later one"),
+    Ob("C13.5", "conservation clauses over the inputs: one divisor for quotient and remainder, fee = inputs - outputs unclamped, a count mismatch of spent outputs is `missing`, the fee is forwarded as given", c13_5, floor=4, engines="SYM",
+       breaks_if="dust-sized split pools; overspending transactions; more recorded spent outputs than inputs; fee=0"),
 ]
